@@ -10,7 +10,10 @@ import (
 	"runtime/debug"
 	"sort"
 	"strconv"
+	"strings"
 	"time"
+
+	"golang.org/x/tools/go/ssa"
 )
 
 type Options struct {
@@ -160,6 +163,42 @@ func main() {
 		}
 	case "manifest":
 		writeManifest()
+	case "guards":
+		// debug aid: checker guards <unit> <func>... — calls, stores and returns with their dominating guards
+		u, err := LoadUnit(opts.Repo, args[1], configsFor("quick")[0])
+		if err != nil {
+			fmt.Fprintln(os.Stderr, err)
+			os.Exit(2)
+		}
+		for _, name := range args[2:] {
+			fn := u.Func(name)
+			if fn == nil {
+				fmt.Println("no such function", name)
+				continue
+			}
+			fmt.Println("==", name)
+			Instrs(fn, func(in ssa.Instruction) {
+				d := ""
+				switch x := in.(type) {
+				case *ssa.Call:
+					d = "call " + u.Describe(x)
+				case *ssa.Defer:
+					d = "defer " + u.CalleeName(&x.Call)
+				case *ssa.Store:
+					d = "store " + u.Describe(x.Addr) + " <- " + u.Describe(x.Val)
+				case *ssa.MapUpdate:
+					d = "mapupdate " + u.Describe(x.Map) + "[" + u.Describe(x.Key) + "] <- " + u.Describe(x.Value)
+				case *ssa.Return:
+					d = "return"
+					for i := range x.Results {
+						d += " " + u.Describe(ReturnValue(x, i))
+					}
+				default:
+					return
+				}
+				fmt.Printf("b%d %s\n      guards: %s\n", in.Block().Index, d, strings.Join(u.GuardStrings(in), " && "))
+			})
+		}
 	case "check", "all":
 		var ids []string
 		if args[0] == "all" {
